@@ -583,6 +583,14 @@ class Interp:
             self.run_generator(it, consume)
             return
         name = s.target.id if isinstance(s.target, ast.Name) else None
+        # the body is executed once, for a generic iteration: a name that an iteration may read before assigning it holds
+        # what the previous iteration left there (loops.py) - not what it held before the loop
+        from . import loops
+
+        for cn in sorted(loops.carried(s)):
+            if env.lookup(cn) is not None:
+                self.log("carried", s, name=cn, before=env.lookup(cn))
+                env.set(cn, sym_num(f"{cn}@carried"))
         if isinstance(it, RangeV):
             self._assign(s.target, sym_num(self._counter_symbol(name, s) if name else "@k"), env, s)
         elif isinstance(it, EnumV):
@@ -1582,6 +1590,8 @@ class Interp:
                 return Num(nf.fn(fi.qualname, *parts))
             return self._exec_function(fi, bound, self_val, callee.env, callee.owner or fi.cls)
         if isinstance(callee, PartialV):
+            if callee.vectorized:
+                self.log("vectorized_call", node, func=callee.func)
             return self.call(callee.func, list(callee.args) + list(args), {**callee.kwargs, **kwargs}, node, env)
         if isinstance(callee, LambdaV):
             sub = Env(callee.env, callee.module, callee.env.func if callee.env else None)
@@ -2356,9 +2366,9 @@ def _h_diff(it, args, kwargs, bound, node, qual):
 
 
 def _h_vectorize(it, args, kwargs, bound, node, qual):
-    """np.vectorize(f)(...) applies f elementwise: in the term domain that is f itself"""
-    if args and isinstance(args[0], (FuncV, LambdaV)):
-        return args[0]
+    """np.vectorize(f)(...) applies f elementwise: in the term domain that is f itself (the call is logged as per-element)"""
+    if args and isinstance(args[0], (FuncV, LambdaV, PartialV)):
+        return PartialV(args[0], [], {}, vectorized=True)
     return None
 
 
